@@ -28,7 +28,6 @@ contract("xdoctest.doctest_part:DoctestPart.check",
                  ("tg", "trailing_gots == unmatched + [got_stdout]"),
                  ("tried", "all(not " + _V + " and not " + _RF + " for m in range(1, _i0 + 1))"),
              ])},
-         props=["C02"],
-         opts={"native": False,
-               "facts_after": {"got_": [("suffix", "got_ == S.suffix_join(trailing_gots, i)")]}},
+         props=["C02"], gen="part_check_inputs",
+         opts={"facts_after": {"got_": [("suffix", "got_ == S.suffix_join(trailing_gots, i)")]}},
          sentinel=("only-own-output", "S.V(" + _WANT + ", got_stdout, got_eval, runstate)"))
